@@ -515,7 +515,7 @@ func (m *mon) runCase(stream string, idx int, sc scenario, rng *rand.Rand) {
 		r.Obs("calls/"+o.Obs, 1)
 		if followed := rootSymlinkFollowed(t, o, dest, err); followed != "" {
 			// One defect, three faces (regular file / EISDIR / ENOENT): one key.
-			r.Obs("root_symlink_followed/"+followed, 1)
+			r.Obs("root_symlink_followed/"+rootKey(t), 1)
 			r.Violation("copy/symlink-root/followed-instead-of-reproduced",
 				fmt.Sprintf("%s of a root symlink %s (context: sibling file a, sibling dir b) follows the link: %s", o.String(), t.String(), followed), wit(o, "", nil, err), idx)
 			checkSource(o, "", "call")
